@@ -45,6 +45,8 @@ type Store struct {
 	NApplied int // write operations that took effect (commits)
 	ClockFn  func() uint64
 	TSOFault func() bool // the timestamp oracle fails when this returns true
+	GetFault func(key []byte, n int) bool // the n-th point read (counted from 0 while set) fails when this returns true
+	NGets    int
 	// IterFault is asked before every iterator step with the iterator's start key and the ordinal
 	// of the step within that iterator (both independent of how concurrent scans interleave):
 	// true = the step fails
@@ -195,6 +197,13 @@ func (s *Store) GetPartitions(ctx context.Context, start, end []byte) ([]storage
 func (s *Store) Get(ctx context.Context, key []byte) ([]byte, error) {
 	s.yield("get")
 	defer s.yield("get-done")
+	if s.GetFault != nil {
+		n := s.NGets
+		s.NGets++
+		if s.GetFault(key, n) {
+			return nil, ErrInjected // a transient engine fault on a point read
+		}
+	}
 	i, ok := s.find(key)
 	if !ok {
 		return nil, storage.ErrKeyNotFound
